@@ -130,7 +130,7 @@ func main() {
 	if mf := os.Getenv("VERIF_MARKER"); mf != "" {
 		workerMarker, _ = os.OpenFile(mf, os.O_RDWR|os.O_CREATE, 0o644)
 	}
-	budget := 75 * time.Second
+	budget := 90 * time.Second
 	if id == "C06" {
 		budget = 150 * time.Second // 8 harnesses x configurations x two builds: about 60 s on an idle 16-core machine
 	}
